@@ -1,0 +1,220 @@
+package theine_test
+
+import (
+	"bytes"
+	"context"
+	"fmt"
+	"math"
+	"runtime/pprof"
+	"strconv"
+	"strings"
+	"testing"
+	"time"
+
+	"github.com/Yiling-J/theine-go"
+	"github.com/Yiling-J/theine-go/internal"
+	"github.com/stretchr/testify/require"
+)
+
+const closeTestLabel = "theine-close-test"
+
+// run fn with a pprof label, goroutines started by fn inherit the label.
+func withLabel(name string, fn func()) {
+	pprof.Do(context.Background(), pprof.Labels(closeTestLabel, name), func(ctx context.Context) {
+		fn()
+	})
+}
+
+// count of running goroutines started inside withLabel(name, ...).
+func labeledGoroutines(name string) int {
+	var buf bytes.Buffer
+	if err := pprof.Lookup("goroutine").WriteTo(&buf, 1); err != nil {
+		panic(err)
+	}
+	label := fmt.Sprintf("%q:%q", closeTestLabel, name)
+	total := 0
+	// goroutines with same stack and labels are grouped in one block:
+	// "count @ pc pc...\n# labels: {...}\n#\tstack...\n\n"
+	for _, block := range strings.Split(buf.String(), "\n\n") {
+		if !strings.Contains(block, label) {
+			continue
+		}
+		for _, line := range strings.Split(block, "\n") {
+			if fields := strings.Fields(line); len(fields) > 1 && fields[1] == "@" {
+				count, err := strconv.Atoi(fields[0])
+				if err != nil {
+					panic(err)
+				}
+				total += count
+			}
+		}
+	}
+	return total
+}
+
+func TestClose_AllCacheKinds(t *testing.T) {
+	loader := func(ctx context.Context, key int) (theine.Loaded[int], error) {
+		return theine.Loaded[int]{Value: key, Cost: 1}, nil
+	}
+	newSecondary := func() *internal.SimpleMapSecondary[int, int] {
+		secondary := internal.NewSimpleMapSecondary[int, int]()
+		// always exists in secondary cache
+		require.Nil(t, secondary.Set(5000, 5000, 1, math.MaxInt64))
+		return secondary
+	}
+
+	type client struct {
+		goroutines int
+		get        func(key int) bool
+		set        func(key int, value int) bool
+		delete     func(key int)
+		close      func()
+	}
+	cases := map[string]func() client{
+		"cache": func() client {
+			c, err := theine.NewBuilder[int, int](100).Build()
+			require.Nil(t, err)
+			return client{
+				goroutines: 2,
+				get:        func(key int) bool { _, ok := c.Get(key); return ok },
+				set:        func(key, value int) bool { return c.Set(key, value, 1) },
+				delete:     c.Delete,
+				close:      c.Close,
+			}
+		},
+		"loading": func() client {
+			c, err := theine.NewBuilder[int, int](100).Loading(loader).Build()
+			require.Nil(t, err)
+			return client{
+				goroutines: 2,
+				get:        func(key int) bool { _, err := c.Get(context.TODO(), key); return err == nil },
+				set:        func(key, value int) bool { return c.Set(key, value, 1) },
+				delete:     c.Delete,
+				close:      c.Close,
+			}
+		},
+		"hybrid": func() client {
+			c, err := theine.NewBuilder[int, int](100).Hybrid(newSecondary()).Workers(4).AdmProbability(1).Build()
+			require.Nil(t, err)
+			return client{
+				goroutines: 6,
+				get:        func(key int) bool { _, ok, err := c.Get(key); return ok && err == nil },
+				set:        func(key, value int) bool { return c.Set(key, value, 1) },
+				delete:     func(key int) { _ = c.Delete(key) },
+				close:      c.Close,
+			}
+		},
+		"hybrid-loading": func() client {
+			c, err := theine.NewBuilder[int, int](100).Hybrid(newSecondary()).Workers(4).AdmProbability(1).Loading(loader).Build()
+			require.Nil(t, err)
+			return client{
+				goroutines: 6,
+				get:        func(key int) bool { _, err := c.Get(context.TODO(), key); return err == nil },
+				set:        func(key, value int) bool { return c.Set(key, value, 1) },
+				delete:     func(key int) { _ = c.Delete(key) },
+				close:      c.Close,
+			}
+		},
+	}
+
+	for name, build := range cases {
+		t.Run(name, func(t *testing.T) {
+			var c client
+			withLabel(name, func() { c = build() })
+			// maintenance, ticker and secondary cache workers
+			require.Eventually(t, func() bool {
+				return labeledGoroutines(name) == c.goroutines
+			}, 5*time.Second, 5*time.Millisecond)
+
+			for i := 0; i < 1000; i++ {
+				require.True(t, c.set(i, i))
+			}
+			require.True(t, c.set(5000, 5000))
+			require.True(t, c.get(5000))
+
+			c.close()
+			require.Eventually(t, func() bool {
+				return labeledGoroutines(name) == 0
+			}, 5*time.Second, 5*time.Millisecond)
+
+			// Get misses, Set/Delete have no effect and nothing blocks
+			require.False(t, c.get(5000))
+			for i := 0; i < 1000; i++ {
+				c.set(i, i)
+				c.delete(i)
+			}
+			c.set(5000, 5000)
+			require.False(t, c.get(5000))
+			for i := 0; i < 1000; i++ {
+				require.False(t, c.get(i))
+			}
+			require.Equal(t, 0, labeledGoroutines(name))
+		})
+	}
+}
+
+type blockingSecondary struct {
+	*internal.SimpleMapSecondary[int, int]
+	entered chan struct{}
+	release chan struct{}
+}
+
+func (s *blockingSecondary) Set(key int, value int, cost int64, expire int64) error {
+	select {
+	case s.entered <- struct{}{}:
+	default:
+	}
+	<-s.release
+	return s.SimpleMapSecondary.Set(key, value, cost, expire)
+}
+
+// Workers in the middle of syncing an entry to secondary cache
+// when Close is called must also exit.
+func TestClose_HybridWorkerBusy(t *testing.T) {
+	secondary := &blockingSecondary{
+		SimpleMapSecondary: internal.NewSimpleMapSecondary[int, int](),
+		entered:            make(chan struct{}, 1),
+		release:            make(chan struct{}),
+	}
+	name := "hybrid-busy"
+	var c *theine.HybridCache[int, int]
+	withLabel(name, func() {
+		var err error
+		c, err = theine.NewBuilder[int, int](10).Hybrid(secondary).Workers(2).AdmProbability(1).Build()
+		require.Nil(t, err)
+	})
+
+	// workers hold shard read lock while calling secondary cache,
+	// so Set might block until workers are released.
+	setDone := make(chan struct{})
+	go func() {
+		defer close(setDone)
+		for i := 0; i < 200; i++ {
+			c.Set(i, i, 1)
+		}
+	}()
+	select {
+	case <-secondary.entered:
+	case <-time.After(5 * time.Second):
+		t.Fatal("no entry evicted to secondary cache")
+	}
+
+	closeDone := make(chan struct{})
+	go func() {
+		defer close(closeDone)
+		c.Close()
+	}()
+	time.Sleep(10 * time.Millisecond)
+	close(secondary.release)
+
+	for _, ch := range []chan struct{}{setDone, closeDone} {
+		select {
+		case <-ch:
+		case <-time.After(5 * time.Second):
+			t.Fatal("Set/Close blocked")
+		}
+	}
+	require.Eventually(t, func() bool {
+		return labeledGoroutines(name) == 0
+	}, 5*time.Second, 5*time.Millisecond)
+}
